@@ -2029,6 +2029,10 @@ func eofNewlineRule(R string) RuleFunc {
 		for len(queue) > 0 && len(seen) < 60000 {
 			it := queue[0]
 			queue = queue[1:]
+			if m.states[it.ic.step] == nil {
+				undecided++ // a step function built at run time (closure): not a row of the model
+				continue
+			}
 			fpos := c.P.Pos(m.states[it.ic.step].Pos())
 			accE, whyE := jm.acceptsEOFJS(it.ic)
 			nl, okNL, whyNL := jm.stepJS(it.ic, '\n')
